@@ -963,7 +963,11 @@ def stream_repr(chk, i, rng):
         # corners where the unchanged tree deviates (reported; observations until a disposition exists)
         obs_tuple = False       # groups as tuples: fixed in /repo 1a7c87e (check_groups returns lists) -> a hard expectation like the arrays
         obs_afflist = ylab in ("list", "tuple") and mode == "path"        # compute_val_score slices y[j:j+bs][:, j:j+bs]
-        tol = 1e-5 if (lab == "float32" or ylab == "float32") else 1e-9     # float32 data: path computes the affinity in float32
+        # float32 X / affinity: path() keeps single precision (affinity, forward pass) and training amplifies the 1e-8 differences:
+        # no comparison with the float64 reference, only the model's own state checks.  Exact integer dtypes through path
+        # (no conversion to float64 there): 1e-6 relative.  Layout-only representations: tight.
+        single = lab == "float32" or ylab == "float32"
+        tol = 1e-6 if (lab in ("int64", "int32", "bool") and mode == "path") else 1e-9
         before = (snapshot(Xv), snapshot(yv), snapshot(gv))
         try:
             ok, out = run_alarmed(lambda: train(Xv, yv, gv))
@@ -992,6 +996,19 @@ def stream_repr(chk, i, rng):
                         f"indexes multi-dimensionally: {mode} silently ends in other weights than with groups=[[0, 1]]")
             chk.dist["repr:groups=tuples"] += 1
             continue
+        if single:
+            ws = est._get_weights()
+            if [np.shape(a) for a in ws] != [b.shape for b in ref_w] or not all(np.all(np.isfinite(a)) for a in ws):
+                chk.fail(key + ":single-precision", f"{mode} on X as {lab} / affinity as {ylab}: weights of another shape than the reference's or not finite", rp, layer="L3")
+            if jgroups(est.groups_) != jgroups(ref.groups_):
+                chk.fail(key + ":groups_", f"groups_ {jgroups(est.groups_)} differs from the reference's {jgroups(ref.groups_)} (groups as {glab})", rp, layer="L3")
+            check_selection(chk, key, est, rp)
+            check_hierarchy(chk, key, est, rp)
+            check_groups_whole(chk, key, est, rp, X)
+            check_inert(chk, key, est, X, rng, rp)
+            chk.dist["repr:X=" + lab] += 1
+            chk.dist["repr:single-precision (state checks only)"] += 1
+            continue
         if not all(close_arrays(a, b, tol) for a, b in zip(est._get_weights(), ref_w)):
             chk.fail(key + ":weights", f"{mode} on X as {lab} / affinity as {ylab} / groups as {glab} ends in other weights than on the float64 C-contiguous "
                      f"reference (max diff {max(float(np.abs(np.asarray(a) - b).max()) for a, b in zip(est._get_weights(), ref_w))})", rp, layer="L3")
@@ -1001,7 +1018,7 @@ def stream_repr(chk, i, rng):
                 chk.fail(key + ":selection", f"get_selection differs: {[int(j) for j in est.get_selection()]} vs reference {ref_sel}", rp, layer="L3")
         if jgroups(est.groups_) != jgroups(ref.groups_):
             chk.fail(key + ":groups_", f"groups_ {jgroups(est.groups_)} differs from the reference's {jgroups(ref.groups_)} (groups as {glab})", rp, layer="L3")
-        if mode == "path" and ([int(v) for v in res[4]] != [int(v) for v in ref_res[4]] or not close_arrays(res[3], ref_res[3])) and tol == 1e-9:
+        if mode == "path" and ([int(v) for v in res[4]] != [int(v) for v in ref_res[4]] or not close_arrays(res[3], ref_res[3], tol)):
             chk.fail(key + ":history", f"path history differs: n_features {res[4]} vs {ref_res[4]}", rp, layer="L3")
         if not labels_agree(ref_p, ref.labels_, est.labels_):
             chk.fail(key + ":labels", "labels_ differ from the reference's on clearly separated samples", rp, layer="L3")
@@ -1027,7 +1044,12 @@ def stream_repr(chk, i, rng):
             continue
         if not same_bits(before, Xv):
             chk.fail("repr:predict:argument-modified", f"a predict-type call modified X (as {lab})", rp, layer="L3")
-        if not close_arrays(p, ref_p, 1e-12) or not labels_agree(ref_p, ref.predict(X), lb) or not close(sc, sc_ref, 5e-3 if lab == "float32" else 1e-9):   # float32 X: the kernel of score is float32, sqrt near 0 amplifies
+        ptol = 1e-12 if lab not in ("float32", "int64", "int32", "bool") else 1e-6
+        if lab == "float32":           # score computes its kernel in single precision: finite only
+            bad_score = not np.isfinite(sc) and np.isfinite(sc_ref)
+        else:
+            bad_score = not close(sc, sc_ref, 1e-6 if ptol == 1e-6 else 1e-9)
+        if not close_arrays(p, ref_p, ptol) or not labels_agree(ref_p, ref.predict(X), lb) or bad_score:
             chk.fail("repr:predict:value", f"predict_proba / predict / score on X as {lab} differ from the float64 reference "
                      f"(max diff {float(np.abs(np.asarray(p) - ref_p).max())}, score {sc} vs {sc_ref})", rp, layer="L3")
     chk.traces += 1
